@@ -206,6 +206,8 @@ def inverse(case, ctx):
         F = fourier.dft2(f, alpha, unitary=u)
     fdt = case.get("F_dtype", "complex128")
     e_F64 = float(np.sum(np.abs(F) ** 2))
+    if fdt == "complex64" and not (1e-30 < float(np.max(np.abs(F))) < 1e30):
+        fdt = "complex128"                  # (single precision cannot hold magnitudes outside ~1e-38 .. 1e38 at all)
     if fdt != "complex128":
         F = F.astype(fdt)
         ctx.tag("spectrum_dtype:" + fdt)
@@ -472,13 +474,13 @@ def inplace(case, ctx):
                                            f"the fresh-allocation result by {d:.3e} (peak {float(np.max(np.abs(fresh))):.3e})")
 
 
-# --- kernels up to the memory limit: 2^24 .. 2^27.3 elements on one axis ----------------------------------------------
+# --- kernels up to the memory limit: 2^24 .. 2^26.8 elements on one axis ----------------------------------------------
 
 @st.composite
 def giant_case(draw, tier="quick"):
     # four cases in five above 2^26 elements (1 GiB of complex128 for the matrix alone)
     # (a kernel above a size threshold is above every lower threshold too: most cases sit at the top of the range)
-    K = int(2 ** (draw(st.floats(26.8, 27.3)) if draw(st.integers(0, 4)) else draw(st.floats(24.0, 26.8))))
+    K = int(2 ** (draw(st.floats(26.2, 26.8)) if draw(st.integers(0, 4)) else draw(st.floats(24.0, 26.2))))
     top = int(np.sqrt(K))
     m = int(np.exp(draw(st.floats(np.log(60.0), np.log(float(min(top, 12000)))))))
     M = max(m, K // m + draw(st.integers(0, 2)))
@@ -489,8 +491,8 @@ def giant_case(draw, tier="quick"):
 
 
 hyp("C01", "giant", lambda tier: giant_case(tier),
-    "inputs of 60..12000 samples on one axis transformed over one full period with kernels of 2^24 .. 2^27.3 "
-    "elements (mostly at the top; up to ~2.6 GB for the transform matrix, i.e. up to what the memory cap allows) vs an "
+    "inputs of 60..12000 samples on one axis transformed over one full period with kernels of 2^24 .. 2^26.8 "
+    "elements (mostly at the top; up to ~1.9 GB for the transform matrix, i.e. up to what the memory cap allows) vs an "
     "FFT-based evaluation of the same sum, long axis first and long axis second", examples=(3, 5), budget_s=(400, 900), max_shards=2)(lambda case, ctx: [long(dict(case, axis=a), ctx) for a in (0, 1)] and None)
 
 
